@@ -1,6 +1,7 @@
 (** C13 — String and number literals survive generation exactly.
     Only statements, closed by [exact], with their assumptions printed and pinned. *)
-From DL Require Import Lib.Bytes Model.StringLit Proof.StringLitBasics Proof.StringLitFacts.
+From DL Require Import Lib.Bytes Model.StringLit Proof.StringLitBasics Proof.StringLitFacts
+  Proof.StringLitSegment.
 Open Scope N_scope.
 
 (** Every byte string, in whatever quoting form [write_string] picks (single, double,
@@ -46,6 +47,16 @@ Proof. exact utf8_roundtrip. Qed.
 Print Assumptions C13_utf8_roundtrip.
 Check C13_utf8_roundtrip : forall s cps,
   utf8_decode s = Some cps -> flat_map utf8_encode cps = s.
+
+(** Interpolated strings: the literal part of a backtick string between two holes, as
+    [write_interpolated_string_segment] writes it (backtick and opening brace escaped with a
+    backslash), is read back by Luau's rules as the same bytes. *)
+Theorem C13_segment_roundtrip : forall s,
+  wf_bytes s = true -> decode_segment (segment_bytes s) = Some s.
+Proof. exact segment_roundtrip. Qed.
+Print Assumptions C13_segment_roundtrip.
+Check C13_segment_roundtrip : forall s,
+  wf_bytes s = true -> decode_segment (segment_bytes s) = Some s.
 
 (** non-vacuity: hypotheses are met by non-trivial values *)
 Example C13_example_long :
